@@ -223,4 +223,17 @@ correspondence run - implementation half only, no model of connect-go.) -/
 theorem accepts_sharp (limit : Nat) : accepts limit limit = true ∧ accepts limit (limit + 1) = false := by
   simp [accepts]
 
+/-- the predicate the check evaluates on every end-to-end call (`sharp`), at the boundary:
+a message of exactly the limit may only be observed as accepted and delivered intact, one
+byte more only as resource-exhausted — whatever else is observed -/
+theorem holdsSharp_boundary (limit : Nat) (ok exhausted : Bool) (want got echo : Nat) :
+    (holdsSharp limit limit ok exhausted want got echo = true ↔
+      (ok = true ∧ got = want ∧ echo = limit)) ∧
+    (holdsSharp limit (limit + 1) ok exhausted want got echo = true ↔
+      (exhausted = true ∧ ok = false)) := by
+  constructor
+  · simp [holdsSharp, accepts, and_assoc]
+  · have h : ¬ (limit + 1 ≤ limit) := by omega
+    simp [holdsSharp, accepts, h]
+
 end ConfModel.Props.C19
